@@ -136,6 +136,35 @@ def check_graph(text, g):
         callers = sorted(b["idx"] for b in g["blocks"] if exit_kind(b["ins"][-1]) == ("callsub", [name]))
         if sorted(s["callers"]) != callers:
             errs.append(f"subroutine {name}: caller table {sorted(s['callers'])} differs from retained call sites {callers}")
+    errs += check_return_points(g)
+    return errs
+
+
+def check_return_points(g):
+    """C05, call / return-point structure as the tool reports it through BasicBlock.is_sub_return_point / sub_return_point /
+    callsub_block / called_subroutine (dumped per block as is_rp / rp / csb / callee): a block ending in callsub resumes at its
+    fall-through successor (none when it has no successor); a block is a return point iff it is the fall-through successor of
+    a retained callsub block, and then its callsub_block is such a block; the callee is the subroutine named by the callsub."""
+    errs = []
+    blocks = {b["idx"]: b for b in g["blocks"]}
+    if not g["blocks"] or "is_rp" not in g["blocks"][0]:
+        return errs
+    callsubs = {b["idx"]: b for b in g["blocks"] if b["ins"] and exit_kind(b["ins"][-1])[0] == "callsub"}
+    resume = {c: (b["next"][0] if b["next"] else None) for c, b in callsubs.items()}
+    for c, b in callsubs.items():
+        if b.get("rp") != resume[c]:
+            errs.append(f"callsub block {c}: sub_return_point is {b.get('rp')}, execution resumes at {resume[c]}")
+        want = exit_kind(b["ins"][-1])[1][0]
+        if b.get("callee") != want:
+            errs.append(f"callsub block {c}: called_subroutine is {b.get('callee')}, the callsub names {want}")
+    for idx, b in blocks.items():
+        srcs = sorted(c for c, r in resume.items() if r == idx)
+        if bool(b.get("is_rp")) != bool(srcs):
+            errs.append(f"block {idx}: is_sub_return_point = {b.get('is_rp')} but the retained callsub blocks resuming here are {srcs} (callsub)")
+        elif srcs and b.get("csb") not in srcs:
+            errs.append(f"return point {idx}: callsub_block is {b.get('csb')}, the callsub blocks resuming here are {srcs}")
+        if idx not in callsubs and b.get("rp") != "-":
+            errs.append(f"block {idx} does not end in callsub but reports sub_return_point {b.get('rp')} (callsub)")
     return errs
 
 
